@@ -232,7 +232,7 @@ def snapshot(root, content=True, xattrs=True):
             for n in names:
                 visit(os.path.join(p, n), os.path.join(rel, n) if rel else n)
 
-    visit(root, "")
+    visit(root, root[:0])
     return snap
 
 
